@@ -369,7 +369,11 @@ class Pool(localbase):
     def disconnect(pool):
         con = pool.con
         pool.con = None
-        if con is not None: con.close()
+        if con is None: pass
+        elif pool.pid != os.getpid():  # inherited from the parent process: closing it would end the parent's session
+            pool.forked_connections.append((con, pool.pid))
+            pool.pid = None
+        else: con.close()
 
 class Converter(object):
     EQ = 'EQ'
